@@ -678,15 +678,29 @@ def c15(run, scratch):
         run.violation("MC_CacheIO_general", {"signature": {"step": "MC_CacheIO_general"}, "tlc": r.violation, "output": r.out[-4000:]})
     run.add_tlc("MC_CacheIO_general", r, note="every sink response at every call, tiny sections: protocol invariants")
     cases = tlc_cases(run, scratch, "MC_CacheIO_policies", "MC_CacheIO", cfg="MC_CacheIO_policies.cfg", workers=8, timeout=900)
+    args = ["--seed", run.seed, "--n", 80 if t else 20]
     if cases:
+        # B2: the fault schedules TLC enumerated for the property's sink families are replayed into the real
+        # writer.  The recorded runs are judged by CacheIO!RecordedProtocol (what the property states); whether
+        # the writer also made exactly the calls of the model (same outcome, same number of delivered bytes) is
+        # recorded for information only: how a writer cuts the file into calls is not part of the property.
         run.sample({"policy": cases[0]["policy"], "schedule": cases[0]["schedule"], "spec_expects": cases[0]["want"]})
-
-        def corrupt(c):
-            c["total"] = -1          # no implementation can produce a canonical file of this length
-            return c
-        replay_cases(run, scratch, "MC_CacheIO_policies", cases, "sink", corrupt=corrupt,
-                     signature=lambda c, m: {"policy": c["policy"]["kind"]})
-    events = harness_trace(scratch, "sink", "sink", ["--seed", run.seed, "--n", 80 if t else 20])
+        from .core import write_ndjson
+        cpath = scratch.path("sink-cases.ndjson")
+        write_ndjson(cpath, cases)
+        args += ["--cases", cpath]
+    events = harness_trace(scratch, "sink", "sink", args)
+    modelled = [e for e in events if "model" in e]
+    if cases:
+        if len(modelled) != len(cases):
+            raise ToolError(f"C15: {len(modelled)} of {len(cases)} schedules were run")
+        same = [e for e in modelled if e["model"]["total"] == len(e["canonical"]) and e["ok"] == e["model"]["ok"]
+                and e["any_fail"] == e["model"]["failed"] and len(e["sink"]) == e["model"]["sink_len"]]
+        run.extra["schedules_from_tlc"] = len(cases)
+        run.extra["runs_with_the_model_s_call_structure_and_outcome"] = len(same)
+    for e in events:
+        e.pop("model", None)
+        e.pop("case", None)
     validate_pure_trace(run, scratch, "Trace_CacheIO", "Trace_CacheIO", events, workers=14 if t else 10, timeout=3000,
                         corrupt=_c15_corrupt, canary_pred=lambda e: not e["ok"],
                         signature=lambda ev: {"ok": ev["ok"], "any_fail": ev["any_fail"]})
@@ -695,7 +709,6 @@ def c15(run, scratch):
 
 
 REPLAYERS["MC_CacheWriter"] = lambda run, scratch, rec: None
-REPLAYERS["MC_CacheIO_policies"] = lambda run, scratch, rec: replay_cases(run, scratch, "MC_CacheIO_policies", [rec["case"]], "sink")
 
 
 # ---------------------------------------------------------------------------------------------
